@@ -16,10 +16,11 @@ MCRespMsgs == DOMAIN MCRespDef
 MCAuthModes == ${AuthModes}
 MCClosers == ${Closers}
 
-\* lattice runs: the second client message, if any, is the plain follow-up request "q1"; the message after an
-\* interim response, if any, is the plain final response "s1"
-LatticeOK == /\ (Len(sent) >= 2 => sent[2] = "q1")
-             /\ (Len(osent) >= 2 => osent[2].id = "s1")
+\* lattice runs (Lattice = TRUE): every message of the set is sent once, as the first message; the second client
+\* message, if any, is the plain follow-up request (message 1), the message after an interim response the plain
+\* final response (message 1)
+MCReqNext == IF ${Lattice} THEN {1} ELSE MCReqMsgs
+MCRespNext == IF ${Lattice} THEN {1} ELSE MCRespMsgs
 
 \* long runs of refused requests: at most one more message after the accepted one
 AuthDeepOK == first = 0 \/ Len(sent) <= first + 1
